@@ -252,7 +252,7 @@ fn c04(ms: &ModelSnap, model: &AutosarModel, d: &Derived, out: &mut Vec<Viol>) {
                     }
                 }
                 // neighbours of the key must not resolve unless they are paths themselves
-                for cand in [format!("{cp}/x"), format!("{cp}0"), format!("{cp}_1"), cp[..cp.len() - 1].to_string(), format!("{cp}/")] {
+                for cand in [format!("{cp}/x"), format!("{cp}0"), format!("{cp}_1"), { let mut t = cp.clone(); t.pop(); t }, format!("{cp}/")] {
                     if !d.paths.contains_key(&cand) && model.get_element_by_path(&cand).is_some() {
                         v(out, "C04", "lookup-phantom", format!("lookup of `{cand}` succeeds although no element has this path"));
                     }
